@@ -1,4 +1,5 @@
 """C12 - dependency cycles end in an error, never in a hang (engine S)."""
+import os
 import re
 
 from hypothesis import strategies as st
@@ -36,6 +37,14 @@ def cases(draw, tier):
                 # targets, so that the entry targets of the run under test are NEW to the database and get ids far
                 # above those of the cycle members (lock ids are compared textually in places)
                 "pad": draw(st.integers(0, 30)), "prebuild_members": draw(st.integers(0, 2)) > 0}
+    if late and draw(st.integers(0, 99)) < 35:
+        # "flag" flavour: no .do is edited; the closing member asks for the first one only while a harness flag exists
+        # (an input redo does not know), so after the flag appears NOTHING is out of date: only a forced run of that
+        # member meets the cycle, and only through the RECORDED graph (every other member is clean, no script of
+        # theirs runs)
+        late["mode"] = "flag"
+        late["prebuild_members"] = True
+        late["edit_source"] = 0
     # acyclic prefix leading into the cycle, and acyclic siblings
     npre = draw(st.integers(0, 3))
     if late and late["prebuild_members"]:
@@ -71,6 +80,9 @@ def cases(draw, tier):
     if draw(st.integers(0, 2)) == 0 and sib:
         entries.insert(draw(st.integers(0, len(entries))), sib[0])
     kind = draw(st.sampled_from(["redo", "redo", "ifchange"]))
+    if late and late.get("mode") == "flag":
+        kind = "redo"
+        entries = [cyc[k - 1]] + ([sib[0]] if sib and draw(st.integers(0, 2)) == 0 else [])
     jobs = draw(st.sampled_from([1, 1, 2, 3, 4]))
     # known finding D8 (two sibling jobs enter the cycle in parallel -> hang) costs ~15 s per case to prove:
     # keep that shape to a small share of the cases so that the search continues elsewhere
@@ -98,7 +110,12 @@ def cases(draw, tier):
             js = {"tokens": jobs - 1, "held": 0, "high": True}
     cyc_entries = [e for e in entries if e in cyc]
     pdof = dict(dofiles)
-    if late:
+    if late and late.get("mode") == "flag":
+        closing = [stt for stt in v2["body"] if stt[0] == "dep"][0]
+        pdof[late["dofile"]] = {"v": 1, "body": [["dep", 1, ["s0"]]] + [
+            (["depflag", "cyc", [cyc[0]]] if stt is closing else stt) for stt in v2["body"]]}
+        late["spec"] = None
+    elif late:
         pdof[late["dofile"]] = v1
         for i in range(late["pad"]):
             pdof["z%d.do" % i] = {"v": 1, "body": [["dep", 1, ["s0"]], ["out", "stdout"]]}
@@ -124,7 +141,12 @@ def run_case(case, tier):
             r.disk.take_trace()
             if pre.rc != 0:
                 raise runner.Inconclusive("acyclic first build failed: " + pre.text()[-300:])
-            r.disk.write(late["dofile"], hist.P.render_do(late["dofile"], late["spec"]).encode(), fresh_inode=True)
+            if late.get("mode") == "flag":
+                with open(os.path.join(r.disk.ctl, "depflag.cyc"), "w") as f:
+                    f.write("on\n")
+                out.events["c12:cycle-closed-by-an-undeclared-input(flag), met through the recorded graph only"] += 1
+            else:
+                r.disk.write(late["dofile"], hist.P.render_do(late["dofile"], late["spec"]).encode(), fresh_inode=True)
             if late.get("edit_source"):
                 r.disk.write("s0", hist.P.source_content("s0", 1))
             out.events["c12:cycle-introduced-by-edit-after-acyclic-build"] += 1
@@ -138,6 +160,8 @@ def run_case(case, tier):
         cyc = case["cycle"]
         started = [c for c in cyc if r.tl.starts.get(c)]
         entered = len(started) >= min(2, len(cyc))
+        if late and late.get("mode") == "flag" and cyc[-1] in started:
+            entered = True      # the closing member ran and asked for a member whose recorded dependencies lead back
         ev = out.events
         if case.get("excluded_d8"):
             ev["c12:excluded-by-construction(D8 shape forced to -j1)"] += 1
@@ -150,7 +174,7 @@ def run_case(case, tier):
                 ev["c12:>=2-cycle-members-on-command-line-parallel"] += 1
         # how many command-line entries lead into the cycle (sibling jobs of one redo process entering it)
         dofs = dict(case["project"]["dofiles"])
-        if late:
+        if late and late.get("spec"):
             dofs[late["dofile"]] = late["spec"]
         if late and any(stt[0] == "stamp" for c in cyc for stt in dofs[c + ".do"]["body"]):
             ev["c12:late-cycle-with-checksummed-member"] += 1
